@@ -22,7 +22,7 @@ func main() {
 	}
 	dbreplay.Post = func() { t3.Stage(rep, args, map[string]bool{"C03": true}) }
 	dbreplay.Main(rep, args, "C03", []dbreplay.Stage{
-		{Name: "wal-3pg-4ops-exhaustive", Cfg: "MC_DBFile_wal.cfg", Timeout: 15 * time.Minute, MaxKeep: core.Pick(args, 1500, 12000), Always: []string{"LCkpt"}},
+		{Name: "wal-3pg-4ops-exhaustive", Cfg: core.Pick(args, "MC_DBFile_wal.cfg", "MC_DBFile_wal_edge.cfg"), Timeout: 15 * time.Minute, MaxKeep: core.Pick(args, 1500, 12000), Always: []string{"LCkpt"}},
 		{Name: "wal-beyond-3pg-4ops-exhaustive", Cfg: "MC_DBFile_wal_beyond.cfg", Timeout: 15 * time.Minute, MaxKeep: core.Pick(args, 800, 8000)},
 		{Name: "wal-every-litefs-checkpoint-edge-3pg-4ops", Cfg: "MC_DBFile_wal_edge.cfg", Timeout: 15 * time.Minute, MaxKeep: 0, LastIs: "LCkpt"},
 		{Name: "wal-block-edges-with-checkpoint-3pg-4ops", Cfg: "MC_DBFile_wal_L2b.cfg", Timeout: 10 * time.Minute, MaxKeep: 0, Need: "Ckpt", Layouts: []sim.Layout{sim.L2(512), sim.L3(512)}},
